@@ -123,7 +123,6 @@ pub fn abi_blob(payload: &[u8]) -> Abi {
 #[derive(Debug, Default, Clone)]
 pub struct Parsed {
     pub version: u16,
-    pub words: usize,
     pub valid_from: Option<u32>,
     pub obs: Option<u32>,
     pub expires: Option<u32>,
@@ -152,7 +151,7 @@ pub fn parse_blob(blob: &[u8]) -> Option<Parsed> {
         return None;
     }
     let version = u16::from_be_bytes([blob[0], blob[1]]);
-    let mut p = Parsed { version, words: blob.len() / W, ..Default::default() };
+    let mut p = Parsed { version, ..Default::default() };
     let Some(need) = needed_words(version) else {
         return Some(p);
     };
